@@ -1550,9 +1550,10 @@ def run(ctx, scale):
               "non-trivial = some non-coincident pair with a value that has not underflowed (kernel) / every entry point evaluated without a dropped "
               "construction (others); distinct by full canonical input")
   ctx.partial = [
-    "log-likelihood gradient (trace formula, general n): NOT proved (needs the derivative of the matrix inverse and Jacobi's formula); proved for one "
-    "observation (loglik_grad_partial) and the log-domain / scaling layers; the general formula is compared numerically: model vs library vs Richardson "
-    "finite differences of compute_log_likelihood",
+    "log-likelihood gradient: PROVED for every n over Mathlib matrices and in the list model's own terms (Jacobi's formula, d K^-1, Cholesky log-det, "
+    "zero mean and GLS polynomial mean with the envelope argument, log domain; loglik_grad_*). Not proved: that the library's floating-point Cholesky / "
+    "triangular solves produce the exact a, L, K^-1 dK and that build_kernel_hparam_grad_tensor is the entry-wise derivative of the whole kernel matrix "
+    "(entry by entry it is kernel_hparam_grad) - compared numerically: model vs library vs Richardson finite differences of compute_log_likelihood",
     "ei_grad / pf_cdf_grad are stated for an arbitrary Phi with explicit derivative hypotheses; for Mathlib's Gaussian they are discharged "
     "(normal_cdf_hasDerivAt, ei_inner_nonneg_gaussian) - that scipy's ndtr IS that Gaussian CDF is part of the trusted base",
     "symmetry of K^-1 enters gp_var_grad as the hypothesis 'B is self-adjoint w.r.t. the list dot product' (shown satisfiable; not derived from a list-level inverse)",
